@@ -37,17 +37,17 @@ CFG = dict(
                          "random:session-mode": 400, "random:2-shards": 400, "initial-dump-probe:runs": 1}),
     # quick: coupled depth 4 over the full alphabet up to peer renaming (all peers configured alike),
     # bare machine depth 4 over every sequence, coupled depth 3 for asymmetric configurations, random
-    quick=[e2("exh4", _T, 10, 120, part="exh", depth=4, cfg="full", nshards=10, sym=1),
-           e2("mach4", _T, 4, 120, part="machine", depth=4, cfg="full", nshards=4),
-           e2("exh3", _T, 2, 120, part="exh", depth=3, cfg="asym+chain", nshards=2),
-           e2("sess3", _T, 2, 120, part="exh", depth=3, cfg="asym", mode="session", nshards=2),
+    quick=[e2("exh4", _T, 10, 300, part="exh", depth=4, cfg="full", nshards=10, sym=1),
+           e2("mach4", _T, 4, 300, part="machine", depth=4, cfg="full", nshards=4),
+           e2("exh3", _T, 2, 300, part="exh", depth=3, cfg="asym+chain", nshards=2),
+           e2("sess3", _T, 2, 300, part="exh", depth=3, cfg="asym", mode="session", nshards=2),
            e2("rnd", _T, 2, 30, part="rnd", count=2500)],
     # thorough: everything unreduced at depth 4, depth 5 on 3 peers x 2 families (coupled) and on the
     # full alphabet (bare machine)
-    thorough=[e2("exh4", _T, 16, 900, part="exh", depth=4, cfg="full+asym", nshards=16),
-              e2("exh5", _T, 16, 900, part="exh", depth=5, cfg="full", peers=3, fams=2, nshards=16, sym=1),
-              e2("sess4", _T, 4, 900, part="exh", depth=4, cfg="full", peers=3, fams=2, mode="session", nshards=4),
-              e2("mach4", _T, 4, 900, part="machine", depth=4, cfg="full+chain+asym+mixed", nshards=4),
-              e2("mach5", _T, 16, 900, part="machine", depth=5, cfg="full", nshards=16),
+    thorough=[e2("exh4", _T, 16, 1500, part="exh", depth=4, cfg="full+asym", nshards=16),
+              e2("exh5", _T, 16, 1500, part="exh", depth=5, cfg="full", peers=3, fams=2, nshards=16, sym=1),
+              e2("sess4", _T, 4, 1500, part="exh", depth=4, cfg="full", peers=3, fams=2, mode="session", nshards=4),
+              e2("mach4", _T, 4, 1500, part="machine", depth=4, cfg="full+chain+asym+mixed", nshards=4),
+              e2("mach5", _T, 16, 1500, part="machine", depth=5, cfg="full", nshards=16),
               e2("rnd", _T, 8, 60, part="rnd", count=100000000)],
 )
